@@ -1,7 +1,9 @@
 #!/usr/bin/env python3
-"""Prints the markdown table of seeded changes (from seeded/*/meta.json) for DESIGN.md section 7."""
+"""Prints the markdown tables of seeded changes (from seeded/*/meta.json) for DESIGN.md section 7:
+   1. every change: what it is, which checks (quick tier) report it, which were run but stayed silent;
+   2. the changes that were missed when they were first run, with what was added in response."""
 import json, os
-rows = []
+rows, missed = [], []
 for name in sorted(os.listdir("/verif/seeded")):
     mp = os.path.join("/verif/seeded", name, "meta.json")
     if not os.path.exists(mp): continue
@@ -15,6 +17,15 @@ for name in sorted(os.listdir("/verif/seeded")):
     s = s.replace("|", "\\|")
     if len(s) > 150: s = s[:147] + "..."
     rows.append("| %s | %s | %s | %s |" % (name, s, ", ".join(hit) or "-", ", ".join(miss) or "-"))
+    h = m.get("history")
+    if h:
+        missed.append("| %s | %s | %s |" % (name, h.get("first_run", "").replace("|", "\\|"), h.get("response", "").replace("|", "\\|")))
 print("| change | what it is | reported by (quick tier) | run but silent |")
 print("|---|---|---|---|")
 print("\n".join(rows))
+print()
+print("Changes that were not reported when first run (rounds E-N), and the response:")
+print()
+print("| change | first run | what was added |")
+print("|---|---|---|")
+print("\n".join(missed))
